@@ -610,6 +610,36 @@ func ruleHistoricReaderMode(c *Ctx) {
 		{"pkg/core/stateroot", "Module", "GetState"}, {"pkg/core/stateroot", "Module", "FindStates"}, {"pkg/core/stateroot", "Module", "SeekStates"},
 		{"pkg/core/stateroot", "Module", "GetStateProof"}, {"pkg/core", "Blockchain", "GetTestHistoricVM"},
 	}
+	// every opening of a TrieStore reads a root other than the working one (a TrieStore is the read-only storage view
+	// of a given state root): whoever calls mpt.NewTrieStore is a reader, whether tabled above or not (the reset of the
+	// ledger to an earlier height copies contract storage out of the target root this way)
+	tabled := map[string]bool{}
+	for _, fn := range readers {
+		tabled[fn[0]+"|"+fn[1]+"|"+fn[2]] = true
+	}
+	for _, fd := range c.P.AllFuncDecls() {
+		if fd.Decl.Body == nil || !strings.HasPrefix(pkgRel(fd.Pkg.Types), "pkg/core") || pkgRel(fd.Pkg.Types) == mptPkg {
+			continue
+		}
+		if len(c.P.NewFuncCFG(fd).CallSites("pkg/core/mpt.NewTrieStore")) == 0 {
+			continue
+		}
+		recv := ""
+		if sig := fd.Obj.Type().(*types.Signature); sig.Recv() != nil {
+			t := sig.Recv().Type()
+			if p, ok := t.(*types.Pointer); ok {
+				t = p.Elem()
+			}
+			if nt, ok := t.(*types.Named); ok {
+				recv = nt.Obj().Name()
+			}
+		}
+		k := pkgRel(fd.Pkg.Types) + "|" + recv + "|" + fd.Obj.Name()
+		if !tabled[k] {
+			tabled[k] = true
+			readers = append(readers, [3]string{pkgRel(fd.Pkg.Types), recv, fd.Obj.Name()})
+		}
+	}
 	n := 0
 	for _, fn := range readers {
 		fd := c.P.Func(fn[0], fn[1], fn[2])
